@@ -45,6 +45,29 @@ class RenameLocals(ast.NodeTransformer):
     visit_AsyncFunctionDef = visit_FunctionDef
 
 
+class SwapBranches(ast.NodeTransformer):
+    """if c: A else: B  ->  if not c: B else: A   (only plain if/else, not elif chains)"""
+    def visit_If(self, node):
+        self.generic_visit(node)
+        if node.orelse and not (len(node.orelse) == 1 and isinstance(node.orelse[0], ast.If)):
+            node.test = ast.UnaryOp(op=ast.Not(), operand=node.test)
+            node.body, node.orelse = node.orelse, node.body
+        return node
+
+
+FLIP = {ast.Lt: ast.Gt, ast.Gt: ast.Lt, ast.LtE: ast.GtE, ast.GtE: ast.LtE, ast.Eq: ast.Eq, ast.NotEq: ast.NotEq}
+
+
+class FlipCompares(ast.NodeTransformer):
+    """a < b -> b > a, a == b -> b == a (single-operator comparisons)"""
+    def visit_Compare(self, node):
+        self.generic_visit(node)
+        if len(node.ops) == 1 and type(node.ops[0]) in FLIP:
+            node.left, node.comparators = node.comparators[0], [node.left]
+            node.ops = [FLIP[type(node.ops[0])]()]
+        return node
+
+
 def main():
     mode = sys.argv[1]
     base = Repo("/repo")
@@ -64,6 +87,10 @@ def main():
                     else:
                         outer(ch)
             outer(tree)
+        elif mode == "swap-branches":
+            tree = ast.fix_missing_locations(SwapBranches().visit(tree))
+        elif mode == "flip-compares":
+            tree = ast.fix_missing_locations(FlipCompares().visit(tree))
         ov[rel] = ast.unparse(tree) + "\n"
     if "--emit" in sys.argv:
         out = sys.argv[sys.argv.index("--emit") + 1]
